@@ -90,4 +90,15 @@ theorem writeRequest_conds :
        "httpWriteUpgradeRequest: len(extensions) > 0",
        "httpWriteUpgradeRequest: header != nil"] := by decide +kernel
 
+/-- Dialer.tlsClient: one test for "no configuration", one for "no server name"; the clone precedes
+    the assignment (tlsServerName). Dialer.dial hands the URL host of hostport to it. -/
+theorem tls_client_conds :
+    Gen.facts_ws_conds.filter (·.startsWith "Dialer_tlsClient:") =
+      ["Dialer_tlsClient: config == nil",
+       "Dialer_tlsClient: config.ServerName == \"\""]
+    ∧ Gen.facts_ws_calls.filter (·.startsWith "Dialer_tlsClient:") =
+      ["Dialer_tlsClient: call tlsDefaultConfig()",
+       "Dialer_tlsClient: call tlsCloneConfig(config)",
+       "Dialer_tlsClient: call tls.Client(conn, config)"] := by decide +kernel
+
 end Ws.Bridge.C10
